@@ -81,13 +81,13 @@ func nodeTypeNames(w *World) (map[int64]string, map[string][]int64) {
 // nodeTypeConstNames maps NodeType constant values to their Go identifiers.
 func nodeTypeConstNames(w *World) map[int64]string {
 	p := w.Pkg("parse")
-	nt := p.Types.Scope().Lookup("NodeType")
+	nt := scopeLookup(p.Types.Scope(), "NodeType")
 	if nt == nil {
 		panic(undecided{"parse.NodeType"})
 	}
 	out := map[int64]string{}
 	for _, n := range p.Types.Scope().Names() {
-		if c, ok := p.Types.Scope().Lookup(n).(*types.Const); ok && types.Identical(c.Type(), nt.Type()) {
+		if c, ok := scopeLookup(p.Types.Scope(), n).(*types.Const); ok && types.Identical(c.Type(), nt.Type()) {
 			v, _ := constant.Int64Val(c.Val())
 			out[v] = n
 		}
